@@ -10,6 +10,7 @@ mod c10;
 mod c11;
 mod c12;
 mod c14;
+mod c15;
 mod c16;
 mod check;
 mod conc;
